@@ -36,7 +36,9 @@ def formulaJson (f : List (String × Nat) × Int) : Json :=
 * `rxn.balanced {G, H}` → verdict and both formulae;
 * `rxn.autCount {G}` → number of automorphisms on (element, aromatic, charge, hcount; order);
 * `rxn.fullyMapped {G, H}` → Bool;
-* `rxn.standardize {left: [str…], right: [str…]}` → `standardize id post`. -/
+* `rxn.standardize {left: [str…], right: [str…]}` → `standardize id post`;
+* `rxn.remap {H, pairs: [[new, old]…]}` / `rxn.remap {H, order: [old…]}` → `remapGraph` / `remapGraphList`
+  (the public helper `CanonRSMI.remap_graph` in its two documented input forms): `{graph}` or `{error}`. -/
 def handle : Driver.Handler := fun cmd j =>
   match cmd with
   | "rxn.canon" => some do
@@ -64,6 +66,17 @@ def handle : Driver.Handler := fun cmd j =>
     pure (toJson (auts molSel G).length)
   | "rxn.fullyMapped" => some do
     pure (toJson (decide (FullyMapped (← Driver.getGraph j "G") (← Driver.getGraph j "H"))))
+  | "rxn.remap" => some do
+    let H ← Driver.getGraph j "H"
+    let res ← match j.getObjVal? "order" with
+      | .ok o => do
+        let order ← (fromJson? o : Except String (List Nat))
+        pure (remapGraphList H order)
+      | .error _ => do
+        pure (remapGraph H (← natPairs j "pairs"))
+    pure (match res with
+      | .ok g => Json.mkObj [("graph", Driver.graphToJson g)]
+      | .error e => Json.mkObj [("error", errName e)])
   | "rxn.standardize" => some do
     let l ← Driver.getStrList j "left"
     let r ← Driver.getStrList j "right"
